@@ -34,7 +34,7 @@ from elements import LagrangeElement
 
 HAND_FILES = ["Props/C03_model.v", "Props/C03_findings.v"]
 
-MAX_OUT_NODES = 140      # tree size of the implementation's output above which a random case is skipped
+MAX_OUT_NODES = 120      # tree size of the implementation's output above which a random case is skipped
 MAX_IN_NODES = 30
 GEOMETRY_RULES = {"x", "x_component", "x_square", "x_sin", "grad_grad_x", "jacobian", "jacobian_inverse", "detJ",
                   "detJ_only", "facet_normal", "circumradius", "cell_volume", "constant", "constant_vec",
@@ -43,6 +43,20 @@ GEOMETRY_RULES = {"x", "x_component", "x_square", "x_sin", "grad_grad_x", "jacob
 
 def pipeline(e):
     return apply_derivatives(apply_algebra_lowering(e))
+
+
+def has_irrational_literal(e):
+    """a float literal that is not a small rational: produced when UFL folds sin(0.5) etc. numerically at
+    construction; its 53-bit dyadic value makes ring/field very slow and says nothing about differentiation"""
+    from fractions import Fraction
+    from ufl.corealg.traversal import unique_pre_traversal
+    for x in unique_pre_traversal(e):
+        if type(x).__name__ == "FloatValue":
+            v = float(x._value)
+            fr = Fraction(v).limit_denominator(5040)
+            if not (v == 0 or (fr != 0 and abs(float(fr) - v) <= 4.5e-16 * abs(v))):
+                return True
+    return False
 
 
 def tree_size(e, limit=100000):
@@ -333,6 +347,8 @@ def random_cases(run, n):
         cell = rng.choice(["interval", "triangle", "triangle", "tetrahedron"])
         order = rng.choice([1, 1, 2, 2, 3])
         depth = rng.choice([1, 2, 2, 3])
+        if order == 3 and depth > 1:
+            depth = 1                       # third derivatives only of small operands (proof size)
         sub = random.Random(rng.randrange(10**9))
         try:
             e, desc, gen = C03_gen.generate(sub, cell, depth, order)
@@ -341,6 +357,9 @@ def random_cases(run, n):
             continue
         if tree_size(e, 4 * MAX_IN_NODES) > MAX_IN_NODES:
             skipped["too_large"] += 1
+            continue
+        if has_irrational_literal(e):
+            skipped["folded_float_literal"] = skipped.get("folded_float_literal", 0) + 1
             continue
         try:
             out = pipeline(e)
